@@ -17,7 +17,33 @@ DENS = (0.0, 0.01, 0.02, 0.05, 0.1, 0.2, 0.35, 0.5, 0.75, 0.9, 1.0)
 STRUCT = ('path', 'complete', 'star_u', 'star_v', 'perfect_noise', 'crown', 'two_level', 'single')
 
 
+LATTICE_LIMIT = 5         # seconds; the unchanged routine needs milliseconds for these graphs (<= 60 x 60 vertices)
+
+
+def lattice_graph(k, w, nr):
+    """layered graph with a lattice of dead ends (k layers of w vertices, completely connected between consecutive layers) below nr
+    free vertices; the only augmenting path starts at the last vertex.  A depth-first search that does not remember dead ends needs
+    about nr * w**k steps here, Hopcroft-Karp a few hundred."""
+    l = lambda i, j: (i - 1) * w + j
+    c = lambda i: k * w + i - 1
+    roots = [k * w + k + t for t in range(nr)]
+    r0 = k * w + k + nr
+    vfree = k * w + k
+    edges = []
+    for i in range(1, k + 1):
+        edges += [(l(i, j), l(i, j)) for j in range(w)] + [(c(i), c(i))]
+    for i in range(1, k):
+        edges += [(l(i, j), l(i + 1, t)) for j in range(w) for t in range(w)]
+        edges += [(c(i), c(i + 1))]
+    edges += [(c(k), vfree)]
+    edges += [(r, l(1, j)) for r in roots for j in range(w)]
+    edges += [(r0, c(1))]
+    return k * w + k + nr + 1, k * w + k + 1, edges
+
+
 def cases(tier, seed):
+    for (k, w, nr) in ((3, 2, 1), (8, 3, 2), (14, 3, 3), (16, 3, 3), (11, 4, 2)):
+        yield dict(kind='lattice', k=k, w=w, nr=nr, seed=seed)
     _r = np.random.default_rng(seed + 77)
     for _k in range(30 if tier == 'quick' else 200):
         yield dict(kind='reuse', count=25, seed=int(_r.integers(1 << 31)))
@@ -249,6 +275,19 @@ def run_case(c):
     def fail(clause, fn, detail):
         if len(fails) < 6:
             fails.append(dict(clause=clause, detail=detail, signature=f'{fn}:{clause}'))
+    if c['kind'] == 'lattice':
+        import signal
+        nu, nv, edges = lattice_graph(c['k'], c['w'], c['nr'])
+        adj = [[] for _ in range(nu)]
+        for (u, v) in edges:
+            adj[u].append(v)
+        opt = kuhn_max_matching(nu, nv, adj)
+        signal.alarm(LATTICE_LIMIT)          # tighter than the runner's per-case limit: exceeding it is reported as `terminates`
+        try:
+            check_graph(nu, nv, edges, opt, fail, f'lattice k={c["k"]} w={c["w"]} roots={c["nr"]} ({nu}x{nv})')
+        finally:
+            signal.alarm(0)
+        return dict(failures=fails, nontrivial=True, key=json.dumps(c, sort_keys=True))
     if c['kind'] == 'reuse':
         check_reuse(rng, c['count'], fail)
         return dict(failures=fails, nontrivial=True, key=json.dumps(c, sort_keys=True))
